@@ -234,7 +234,17 @@ pub fn run_case(rep: &mut Report, p: &Params) {
                     rep.violation("C10|sync|two-step-flag", "Sync without twoStepFlag although a Follow_Up follows", replay.clone());
                 }
                 let t = lattice_time(&mut rng);
+                // a run-time setting change between the two halves of the exchange: the port stays
+                // master until the next BMCA run, so the Sync it sent still gets its Follow_Up
+                let toggled = !p.wrap && rng.gen_bool(0.15);
+                if toggled {
+                    let _ = node.set_slave_only(true);
+                    rep.ev("slave_only_switched_on_between_sync_and_timestamp");
+                }
                 let acts = call!(Call::TxTimestamp(ctx, time_from_units(t)), "sync tx timestamp");
+                if toggled {
+                    let _ = node.set_slave_only(false);
+                }
                 let em = check_emitted(rep, "C10", &acts, own, p.domain, p.sdo, &replay);
                 let fus: Vec<&Emit> = em.iter().filter(|e| e.msg.hdr.msg_type == T_FOLLOW_UP).collect();
                 rep.ev("sync_followup_pair");
